@@ -215,11 +215,21 @@ def _drive_atheris(ctx: Ctx, strategy, body: Callable[[Any], None]) -> None:
 	finish()
 
 
+SHRINK_DEADLINE = [None]   # wall-clock end of the shrinking phase of the current run (set by run_check)
+
+
 def minimize(strategy, predicate: Callable[[Any], bool], seed: int, max_examples: int = 2000):
-	"""Hypothesis-shrunk minimal example satisfying `predicate`, or None."""
+	"""Hypothesis-shrunk minimal example satisfying `predicate`, or None. Bounded by the run's shrink deadline: after it the predicate
+	answers False at once, so the search ends with the best example found so far."""
 	import hypothesis
 	from hypothesis import HealthCheck, settings
 	from hypothesis.errors import NoSuchExample
+	inner = predicate
+
+	def predicate(x):  # noqa: F811
+		if SHRINK_DEADLINE[0] is not None and time.time() > SHRINK_DEADLINE[0]:
+			return False
+		return inner(x)
 	try:
 		return hypothesis.find(strategy, predicate, random=__import__('random').Random(seed),
 			settings=settings(max_examples=max_examples, database=None, deadline=None, suppress_health_check=list(HealthCheck)))
@@ -541,6 +551,7 @@ def run_check(modname: str, tier: str, replay_path: str | None = None) -> int:
 			mod.finish(merged, tier)
 
 		shrunk = 0
+		SHRINK_DEADLINE[0] = time.time() + float(budget.get('shrink_seconds', 90 if tier == 'quick' else 600))
 		for sig, f in sorted(merged['failures'].items()):
 			k = match_known(known, sig, f.get('case'))
 			if k is not None:
@@ -549,7 +560,7 @@ def run_check(modname: str, tier: str, replay_path: str | None = None) -> int:
 					known_lines.append(line)
 					print(line)
 				continue
-			if hasattr(mod, 'shrink') and shrunk < getattr(mod, 'MAX_SHRINKS', 8):
+			if hasattr(mod, 'shrink') and shrunk < getattr(mod, 'MAX_SHRINKS', 8) and time.time() < SHRINK_DEADLINE[0]:
 				shrunk += 1
 				try:
 					small = mod.shrink(f)
